@@ -145,7 +145,7 @@ class Chosen:
         return self
 
 
-def generate_internal_leaves(env, version, max_loop=2):
+def generate_internal_leaves(env, version, max_loop=3):
     """interpret generate_internal with the four callees that are verified separately stubbed out"""
     prog, ctx = env.prog, env.ctx
     key = prog.find("::generate_internal")
@@ -182,7 +182,36 @@ def generate_internal_leaves(env, version, max_loop=2):
                 return Chosen(v)
             return some(Opaque("chosen_from_other")) if ret_opt else Opaque("chosen_from_other")
 
+        def forget_state():
+            """emit_and_process / cleanup_for_stop rewrite the simulated stack and memo: whatever generate_internal knew about
+            them (e.g. `memo empty` after reset) no longer holds afterwards"""
+            gnames = ctx.fields(ctx.gen_adt)
+            st = h.g.fields[gnames.index("state")]
+            if not isinstance(st, Agg):
+                return
+            snames = ctx.fields(ctx.state_adt)
+            if "memo" in snames:
+                st.fields[snames.index("memo")] = G.AbsMemo(ctx)
+            if "stack" in snames:
+                sk = st.fields[snames.index("stack")]
+                knames = ctx.fields(ctx.stack_adt)
+                if isinstance(sk, Agg) and "inner" in knames:
+                    sk.fields[knames.index("inner")] = G.AbsStack(ctx, 3)
+
+        def ret_payload(k, what):
+            """value a stubbed callee returns: () or, after a signature change, an unknown scalar of the declared type"""
+            rty = str(prog.bodies[k].get("ret_ty", "()"))
+            if rty.startswith("std::result::Result<"):
+                rty = rty[len("std::result::Result<"):].split(",")[0].strip()
+            if rty == "()":
+                return unit()
+            from values import INT_TYPES
+            if rty in INT_TYPES:
+                return Sym(what, (), rty, attrs={"name": what})
+            raise Unanalysable("%s returns %s: no summary for a value of that type" % (k.split("::")[-1], rty))
+
         def st_emit(I, k, a):
+            forget_state()
             I.run.event("extras_rewritten", tuple(h.extra_gen_rewritten()))
             I.run.event("call", "emit_and_process", a[1], h.out.cur_len, len(h.out.writes))
             # emit_and_process appends (C11 P3: exactly one opcode) and may fail
@@ -190,15 +219,18 @@ def generate_internal_leaves(env, version, max_loop=2):
             h.out.writes.append(("opaque_emission", a[1]))
             h.out._add_len(I, n)
             c = I.run.choose(2, "emit_and_process ok")
-            return ok(unit()) if c == 0 else err(Opaque("eyre::Report"))
+            if not str(prog.bodies[k].get("ret_ty", "")).startswith("std::result::Result<"):
+                return ret_payload(k, "emit_and_process_result")
+            return ok(ret_payload(k, "emit_and_process_result")) if c == 0 else err(Opaque("eyre::Report"))
 
         def st_clean(I, k, a):
+            forget_state()
             I.run.event("extras_rewritten", tuple(h.extra_gen_rewritten()))
             I.run.event("call", "cleanup_for_stop", h.out.cur_len, len(h.out.writes))
             n = Sym("cleanup_len", (), "usize", 0, 1 << 20, attrs={"name": "cleanup_len"})
             h.out.writes.append(("opaque_cleanup",))
             h.out._add_len(I, n)
-            return unit()
+            return ret_payload(k, "cleanup_for_stop_result")
         I = Interp(prog, run, mods, stubs={k_valid: st_valid, k_choice: st_choice, k_emit: st_emit, k_clean: st_clean},
                    loop_limit=max_loop + 1)
         src = G.AbsSource(prog)
@@ -250,6 +282,66 @@ def valid_opcodes_leaves(env, version):
         if n >= 300:
             break
     return out
+
+
+def valid_single(env, version, opname, max_runs=200):
+    """get_valid_opcodes where the (stubbed) guard holds for `opname` only: [(consulted?, offered?)] per leaf"""
+    prog, ctx = env.prog, env.ctx
+    key = prog.find("::get_valid_opcodes")
+    k_can = prog.find("::can_emit")
+    mf = H.models_factory(prog, ctx, None)
+    out = []
+
+    def one(run):
+        asked = []
+
+        def st_can(I, k, a):
+            asked.append(a[1].vname)
+            return a[1].vname == opname
+        I = Interp(prog, run, mf(), stubs={k_can: st_can})
+        h = ctx.make_generator(depth_bound=2, version=version)
+        r = I.call(key, [h.ref()])
+        got = [v.vname for v in M.as_elems(None, r)] if hasattr(r, "elems") else []
+        return (opname in asked, opname in got)
+    for run, res, pe in explore(one, max_runs=max_runs):
+        out.append((res, pe))
+    return out
+
+
+def offered_somewhere(env, version, opname, max_runs=4000):
+    """Is `opname` in the list get_valid_opcodes returns for SOME abstract state?  The real guard of `opname` is interpreted
+    (all other guards answer false: they cannot add `opname` to the list), so a pre-filter in get_valid_opcodes that
+    contradicts the guard shows as `never offered`.  Returns (offered, leaves, guard_true_leaves)."""
+    prog, ctx = env.prog, env.ctx
+    key = prog.find("::get_valid_opcodes")
+    k_can = prog.find("::can_emit")
+    mf = H.models_factory(prog, ctx, None)
+    nleaves = [0, 0]
+
+    def one(run):
+        held = [False]
+
+        def st_can(I, k, a):
+            v = a[1]
+            if getattr(v, "vname", None) != opname:
+                return False
+            r = I.truth(I.call(k, a, nostub=True))
+            held[0] = held[0] or r
+            return r
+        I = Interp(prog, run, mf(), stubs={k_can: st_can})
+        h = ctx.make_generator(depth_bound=4, version=version, flags={"allow_ext_opcodes": True, "allow_buffer_opcodes": True})
+        r = I.call(key, [h.ref()])
+        got = [v.vname for v in M.as_elems(None, r)] if hasattr(r, "elems") else []
+        return (opname in got, held[0])
+    for run, res, pe in explore(one, max_runs=max_runs):
+        nleaves[0] += 1
+        if pe is not None or res is None:
+            continue
+        if res[1]:
+            nleaves[1] += 1
+        if res[0]:
+            return True, nleaves[0], nleaves[1]
+    return False, nleaves[0], nleaves[1]
 
 
 def weighted_choice_leaves(env, names):
